@@ -1338,9 +1338,13 @@ class BaseImage(metaclass=ImageMeta):
         cursor_up = CURSOR_UP % (lines - 1) if lines > 1 else ""
         cursor_down = CURSOR_DOWN % lines
         interrupted = False
+        writing_frame = False
 
         try:
-            print(next(image_it._animator), end="", flush=True)  # First frame
+            frame = next(image_it._animator)  # First frame
+            writing_frame = True
+            print(frame, end="", flush=True)
+            writing_frame = False
 
             # Render next frame during current frame's duration
             start = time.time()
@@ -1351,8 +1355,10 @@ class BaseImage(metaclass=ImageMeta):
                 # Clear the current frame, if necessary,
                 # move cursor up to the beginning of the first line of the image
                 # and print the new current frame.
+                writing_frame = True
                 self._clear_frame()
                 print("\r", cursor_up, frame, sep="", end="", flush=True)
+                writing_frame = False
 
                 # Render next frame during current frame's duration
                 start = time.time()
@@ -1370,7 +1376,7 @@ class BaseImage(metaclass=ImageMeta):
             # Move the cursor to the last line of the image to prevent "overlaid"
             # output in the terminal.
             # Not required after a complete frame, as the cursor is already there.
-            if interrupted:
+            if interrupted and writing_frame:
                 print(cursor_down, end="")
 
     def _format_render(
